@@ -177,7 +177,10 @@ RSpec == Init /\ [][RNext]_allvars
 (* is given by n-1 ascending cut points; hash v belongs to the shard whose  *)
 (* number is the count of cuts <= v                                         *)
 MaxHash == LimbBase * LimbBase - 1
-Cuts == {c \in [1..(n - 1) -> 0..(MaxHash + 1)] : \A j \in 1..(n - 2) : c[j] <= c[j + 1]}
+(* (constant-level, so TLC evaluates it once per shard count) *)
+CutsAll == [c \in ShardCounts |->
+             {f \in [1..(c - 1) -> 0..(MaxHash + 1)] : \A j \in 1..(c - 2) : f[j] <= f[j + 1]}]
+Cuts == CutsAll[n]
 ShardOf(c, v) == Cardinality({j \in 1..(n - 1) : c[j] <= v})
 Explains(c, O) == \A o \in O : o.i = ShardOf(c, LimbsVal(o.h, LimbBase))
 
